@@ -7,6 +7,8 @@ of allow_in_tests / allow_expect / detect_*.  Expected multiset of (rule id, lin
 
 from __future__ import annotations
 
+import re
+
 import collections
 import itertools
 
@@ -192,9 +194,12 @@ def _build_and_run(acc: Acc, linter, specs, tag):
             body += stmts[nm][1]
         cl, body_off, in_cfg = _container(i, asyncfn, attr_lines, wrap, body)
         base = len(lines)
-        for nm, off in zip(names, offs):
+        for k_, (nm, off) in enumerate(zip(names, offs)):
             exps = []
+            later = " ".join(ln for n2 in names[k_ + 1 :] for ln in stmts[n2][1])
             for rule, rel in stmts[nm][2]:
+                if rule == "clone-abuse.unnecessary-clone" and re.search(r"\by\b", later):
+                    continue  # a later statement of the same body uses the source again: the clone is needed
                 if isinstance(rel, int):
                     exps.append((rule, base + body_off + off + rel + 1))
                 else:
